@@ -94,7 +94,9 @@ func genAmtCase(t *rapid.T) interface{} {
 	c.FeeDenom = rapid.SampledFrom([]int{0, 0, 0, 0, 0, 0, 1, 2}).Draw(t, "feedenom")
 	c.HolderWho = rapid.IntRange(0, 3).Draw(t, "holderwho")
 	for i := 0; i < 2; i++ {
-		tb := tierBounds[rapid.IntRange(0, len(tierBounds)-1).Draw(t, "tier")]
+		// the six tier bounds and holdings far above the top tier (the discount must stay at the top tier's 60%)
+		pts := []int64{1, 2, 4, 8, 16, 32, 64, 128, 512, 1024, 1000000}
+		tb := pts[rapid.IntRange(0, len(pts)-1).Draw(t, "tier")]
 		v := new(big.Int).Mul(big.NewInt(tb), pow10(18))
 		v.Add(v, big.NewInt(rapid.Int64Range(-1, 1).Draw(t, "tieroff")))
 		if rapid.IntRange(0, 5).Draw(t, "hzero") == 0 {
